@@ -45,7 +45,7 @@ struct HIST {
             fill_parent(model, SZ, g); std::memcpy(M.data(), model, sizeof model); std::memcpy(O.data(), model, sizeof model);
             int len = (int)g.range(10, 50); std::string trace;
             for (int st = 0; st < len; ++st) {
-                int kind = (int)(g.next() % 9), op = (int)(g.next() % 5);
+                int kind = (int)(g.next() % 10), op = (int)(g.next() % 5);
                 long double mx = 0; for (size_t i = 0; i < SZ; ++i) mx = std::max(mx, fabsl((long double)model[i]));
                 if (mx > 2000) { if (op == 3) op = 2; if (kind == 2) kind = 0; }
                 T s = opaque(pick_scalar<T>(g, op)); fill_parent(Rt.data(), SZ, g);
@@ -69,12 +69,18 @@ struct HIST {
                     if (kind == 7) { trace += std::string(" X") + OPN[op] + "map-of-X"; TensorMap<T, D...> M2(M.data()); whole_tensor(M, op, M2); whole_tensor(O, op, reshape<D...>(O)); }
                     else { trace += std::string(" X") + OPN[op] + "flatten(X)"; TensorMap<T, SZ> Mf(M.data()); whole_tensor(M, op, Mf); whole_tensor(O, op, flatten(O)); }
                     break; }
+                case 9: { // the right-hand side is a map of ANOTHER buffer (holding R): values have to be copied / combined into this buffer
+                    bool z = false; if (op == 4) for (size_t i = 0; i < SZ; ++i) if (Rt.data()[i] == T(0)) z = true;
+                    if (z) break;
+                    trace += std::string(" X") + OPN[op] + "map-of-R"; for (size_t i = 0; i < SZ; ++i) model[i] = apply(op, model[i], Rt.data()[i]);
+                    TensorMap<T, D...> MR(Rt.data()); whole_tensor(M, op, MR); whole_tensor(O, op, MR); break; }
                 default: { // read through the map into an expression assigned to an owning tensor, then back
                     trace += " X=X+R(via tmp)"; Tensor<T, D...> tmpM = M + Rt, tmpO = O + Rt; for (size_t i = 0; i < SZ; ++i) model[i] = model[i] + Rt.data()[i]; M = tmpM; O = tmpO; break; }
                 }
-                launder(M.data()); launder(O.data());
+                launder(gb.ptr<T>()); launder(O.data());
                 size_t before = c.bad;
-                cmp3(c, M.data(), O.data(), model, SZ, "after step " + std::to_string(st) + ":" + (trace.size() > 300 ? trace.substr(trace.size() - 300) : trace));
+                ++c.checks; if (M.data() != gb.ptr<T>()) { c.fail("map-retargeted", "after step " + std::to_string(st) + ":" + trace + " the map no longer denotes the buffer it was constructed over"); gb.verify(c, "map buffer"); c.sub = steps; return; }
+                cmp3(c, gb.ptr<T>(), O.data(), model, SZ, "after step " + std::to_string(st) + ":" + (trace.size() > 300 ? trace.substr(trace.size() - 300) : trace));
                 ++steps;
                 if (c.bad != before) { gb.verify(c, "map buffer"); c.sub = steps; return; }
             }
